@@ -385,9 +385,10 @@ pub fn check(tier: Tier) -> i32 {
 	let mut first: BTreeMap<String, (String, J)> = BTreeMap::new();
 	let mut outcomes: std::collections::HashSet<u64> = Default::default();
 	// Part A: real oracle
-	'a: for gc in [2u32, 3] {
-		surrealkv::verif::set_gc_interval(gc);
-		for len in 1..=oracle_len {
+	// (length-major, so that a time cap cuts both GC intervals at the same length)
+	'a: for len in 1..=oracle_len {
+		for gc in [2u32, 3] {
+			surrealkv::verif::set_gc_interval(gc);
 			if budget.elapsed() > budget.cap() * 0.6 {
 				all_complete = false;
 				completed.push(format!("oracle: gc_interval={gc}: stopped before len={len} (time share used)"));
@@ -415,9 +416,9 @@ pub fn check(tier: Tier) -> i32 {
 	}
 	// Part B: real store, sequential
 	let opt = OptSet::base("L2");
-	'b: for gc in [2u32, 3] {
-		surrealkv::verif::set_gc_interval(gc);
-		for len in 2..=store_len {
+	'b: for len in 2..=store_len {
+		for gc in [2u32, 3] {
+			surrealkv::verif::set_gc_interval(gc);
 			if budget.exhausted() {
 				all_complete = false;
 				completed.push(format!("store: gc_interval={gc}: stopped before len={len} (time cap)"));
